@@ -122,6 +122,10 @@ let run_case (t : string list) : string =
     (match expand_pass_exec (unhex dest) (zs stride) (zs p) (zs line) (zs width) (zs bits) (unhex row) with
      | Some d -> hex d
      | None -> "PANIC invalid pass")
+  | ["decode"; c; d; w; h; il; z] ->
+    (match decode_frame (zs c) (zs d) (zs w) (zs h) (il = "1") (unhex z) with
+     | Some px -> hex px
+     | None -> "ERR")
   | ["l0"; ob; lim; sizes; bytes] -> l0_text (l0_run (zs ob) (zs lim) (sizes_of sizes) (unhex bytes))
   | ["l0reset"; ob; lim; first; second] -> l0_text (l0_run_after_reset (zs ob) (zs lim) (unhex first) (unhex second))
   | _ -> "unknown-case"
